@@ -401,6 +401,8 @@ def _wrapped(t):
         out = []
         if t[1] is not None:
             out.append(t[1])
+            if len(t[3]) == 1 and not t[4]:
+                out.append(t[3][0])  # X.op(v): v passed through a binary operation with X
         elif len(t[3]) == 1 and not t[4]:
             out.append(t[3][0])
         return out
@@ -794,6 +796,16 @@ def check_skeleton(ctx: Ctx, rule: str, fi: FuncInfo, specs: Sequence[str], what
             off = one_atom_off(c, sp, ctx.repo)
             if off is not None:
                 ctx.violation(rule, fi, fi.node, f"{what}: the implementation tests  {show(off[0])[:200]}  where the property requires  {show(off[1])[:200]}  (every other condition agrees)")
+                return False
+    # (6) a point change that shows only once conditional calls are lifted (the edit sits in one branch of a conditional argument)
+    for c in cands:
+        lc = canon_lift(c)
+        if has_unrecognised(lc):
+            continue
+        for sp in spec_terms:
+            lsp = canon_lift(sp)
+            if (lc != c or lsp != sp) and point_diffs(lc, lsp) == 1:
+                ctx.violation(rule, fi, fi.node, f"{what}: implementation computes  {show(lc)[:300]}  but the property requires  {show(lsp)[:300]}")
                 return False
     raise AnalysisError(
         f"{fi.where}: skeleton {show(impl)[:200]} is neither the specification nor a point change of it: {show(spec_terms[0])[:200]}; cannot decide ({rule})"
